@@ -116,6 +116,47 @@ def do_task(task):
     raise ValueError(kind)
 
 
+def load_order(ctx):
+    """every shipped grammar file loaded by path (which builds it for the running interpreter's version) and then asked for by version; a newer and an
+    older version loaded first: parse and issue listing of version-sensitive texts are what a process that loaded only that version gives"""
+    from harness.props.C05 import VERSION_SENSITIVE
+    vs = ['3.6', '3.7', '3.8', '3.9', '3.10', '3.11', '3.12', '3.13', '3.14']
+    texts = VERSION_SENSITIVE[:8] + ['x = (a := 1)\n']
+    for v in vs:
+        base = []
+        pgrammar._loaded_grammars.clear()
+        ptok._token_collection_cache.clear()
+        for t in texts:
+            try:
+                base.append(do_task(('errors', v, t)))
+            except Exception as e:
+                base.append(preds.crash_sig(e))
+        for how in ('path', 'newest-first', 'oldest-first'):
+            pgrammar._loaded_grammars.clear()
+            ptok._token_collection_cache.clear()
+            try:
+                if how == 'path':
+                    parso.load_grammar(path='python/grammar%s.txt' % v.replace('.', ''))
+                else:
+                    parso.load_grammar(version=vs[-1] if how == 'newest-first' else vs[0])
+            except Exception:
+                pass
+            ctx.count('load-orders')
+            for t, b0 in zip(texts, base):
+                try:
+                    got = do_task(('errors', v, t))
+                except Exception as e:
+                    got = preds.crash_sig(e)
+                if got != b0:
+                    ctx.violation('C18:result-depends-on-grammars-loaded-before',
+                                  dict(kind='schedule', steps=['load_grammar(%s)' % ("path='python/grammar%s.txt'" % v.replace('.', '') if how == 'path' else how),
+                                                               "load_grammar(version='%s')" % v, 'parse + iter_errors'], version=v, input_text=t,
+                                       observed=str(got)[:300], expected=str(b0)[:300]))
+                    break
+    pgrammar._loaded_grammars.clear()
+    ptok._token_collection_cache.clear()
+
+
 def _stable(x, depth=0):
     """order-insensitive, address-free rendering of a table"""
     import re as _re
@@ -166,6 +207,15 @@ def fingerprint():
         for attr in ('rule_value_classes', 'rule_type_classes'):
             d = getattr(cls, attr)
             out['%s.%s' % (cls.__name__, attr)] = tuple(sorted((str(k), tuple(c.__name__ for c in v)) for k, v in d.items()))
+    # class-level containers of every class of every parso module (a rule class that keeps per-call state in a class attribute shares it between all
+    # walks, versions and threads)
+    for mname in sorted(n for n in sys.modules if n == 'parso' or n.startswith('parso.')):
+        mod = sys.modules[mname]
+        for cname, cls in sorted(vars(mod).items()):
+            if isinstance(cls, type) and getattr(cls, '__module__', None) == mname:
+                for name, val in sorted(vars(cls).items()):
+                    if not name.startswith('__') and isinstance(val, (list, dict, set)) and name not in ('rule_value_classes', 'rule_type_classes', 'node_map'):
+                        out['class:%s.%s.%s' % (mname, cname, name)] = _stable(val)
     import parso.python.tree as pt, parso.tree as bt, parso.python.parser as pp
     out['node_map'] = tuple(sorted((k, v.__name__) for k, v in pp.Parser.node_map.items()))
     # interpreter-wide state that parso touches on some path (warning filters around string decoding, the garbage collector around unpickling)
@@ -186,6 +236,14 @@ def gen_tasks(r, n):
     for i in range(n):
         kind, text = gens.text_case(r.random(), 'c18-text', i, ['oneliner', 'valid', 'mutate', 'lines', 'semantic'])
         tasks.append((r.choice(kinds), r.choice(vs), text[:160]))
+    if r.random() < 0.6:
+        # rules that collect something while they look at one construct (the targets of the comprehensions around an assignment expression, the
+        # names of a scope): two such walks at the same time, on texts that give different answers
+        pool = ['[i := 0 for i, j in range(5)]\n', '[(y := 1) for z in range(5)]\n', '[[(j := 0) for i in range(5)] for j in range(5)]\n', '{(a := 1): 2 for b in c}\n',
+                '[i for i in range(5) if (j := 0) for k[j + 1] in range(5)]\n', 'def f():\n    global x\n    x = 1\n    nonlocal y\n', 'def f(x):\n    global x\n',
+                'def g():\n    x = 1\n    def h():\n        nonlocal x\n        global x\n', '[(i, j := 1) for i, (j, k) in z]\n', '(a := 1 for a in b)\n']
+        for _ in range(2):
+            tasks[r.randrange(n)] = ('errors', r.choice(['3.8', '3.10', '3.12']), r.choice(pool))
     if r.random() < 0.3:
         # a walk that ends in an exception (the recursive visitor on deep nesting): what it set up must be undone all the same
         tasks[r.randrange(n)] = ('errors', r.choice(vs), 'x = ' + '[' * 400 + '1' + ']' * 400 + '\n')
@@ -278,6 +336,7 @@ def run(ctx, b, drv):
     if extra:
         pend.add('obligation-failed:write-set', dict(kind='theorem', obligation='write-set allow-list (harness/writeset.py)', new_writes=[list(x) for x in extra]))
     ctx.cov['write_set'] = [list(w) for w in ws]
+    load_order(ctx)
     nruns = 10 if ctx.tier == 'quick' else 80
     for i in range(nruns):
         r = gens.rng(ctx.seed, 'schedules', i)
@@ -322,6 +381,43 @@ def run(ctx, b, drv):
             ctx.violation('C18:result-depends-on-call-order', dict(kind='schedule', tasks=[list(t) for t in tasks], order=order, differing_task=k))
         if fingerprint() != fp0:
             ctx.violation('C18:shared-state-depends-on-call-order', dict(kind='schedule', tasks=[list(t) for t in tasks], order=order))
+        # other ways of loading grammars first: a shipped grammar file loaded by path (for the running interpreter's version), newer and older versions,
+        # the same version spelled differently
+        pgrammar._loaded_grammars.clear()
+        ptok._token_collection_cache.clear()
+        import parso as _parso
+        pre = []
+        for _ in range(r.randint(1, 4)):
+            vv = r.choice(['3.6', '3.7', '3.8', '3.9', '3.10', '3.11', '3.12', '3.13', '3.14'])
+            how = r.choice(['path', 'version', 'version-long'])
+            pre.append((how, vv))
+            try:
+                if how == 'path':
+                    _parso.load_grammar(path='python/grammar%s.txt' % vv.replace('.', ''))
+                elif how == 'version':
+                    _parso.load_grammar(version=vv)
+                else:
+                    _parso.load_grammar(version=vv + '.7')
+            except Exception:
+                pass
+        exp3 = []
+        for t in tasks:
+            try:
+                exp3.append(('ok', do_task(t)))
+            except Exception as e:
+                exp3.append(('exc', preds.crash_sig(e)))
+        ctx.count('sequential-orders')
+        if exp3 != exp:
+            k = next(j for j in range(n) if exp[j] != exp3[j])
+            ctx.violation('C18:result-depends-on-grammars-loaded-before', dict(kind='schedule', loaded_before=[list(x) for x in pre], tasks=[list(t) for t in tasks],
+                                                                            differing_task=k, observed=str(exp3[k])[:300], expected=str(exp[k])[:300]))
+        pgrammar._loaded_grammars.clear()
+        ptok._token_collection_cache.clear()
+        for t in tasks:
+            try:
+                do_task(t)
+            except Exception:
+                pass
         # repeated calls leave the state unchanged
         for t in tasks[:2]:
             do_task(t)
